@@ -738,7 +738,13 @@ func c02Misc(c *Ctx) {
 			bd, ok := ana.Match("slice(call<*>(call<("+slipPkg+"Key).Bytes>(call<("+slipPkg+"Key).Public>(load(faddr<#2>(p0))))), 0, 4)", vt)
 			_ = bd
 			okH := false
-			if ok {
+			if !ok {
+				// RIPEMD160(SHA256(·)) written out in place (or behind a helper the matcher looks through)
+				pk := "call<(" + slipPkg + "Key).Bytes>(call<(" + slipPkg + "Key).Public>(load(faddr<#2>(p0))))"
+				if _, okX := ana.MatchX(c.P, "slice(call<(hash.Hash).Sum>(obj(call<golang.org/x/crypto/ripemd160.New>, call<(hash.Hash).Write>(self, slice(obj(alloc<[32]byte>, store(self, call<crypto/sha256.Sum256>("+pk+"))), 0, none))), nil), 0, 4)", vt); okX {
+					ok, okH = true, true
+				}
+			} else {
 				if h := calleeOf(vt.Arg(0)); h != nil {
 					r.Fn(ana.ShortFunc(h))
 					hb := ana.NewBuilder(c.P, h)
